@@ -16,7 +16,9 @@ def run_rules(prop, model, tier="quick", seed=0):
     mod = importlib.import_module(f"sa.rules.{prop.lower()}")
     ctx = Ctx(prop, tier, seed)
     errors = []
-    for rule_id, fn in mod.RULES:
+    rules = list(mod.RULES)
+    minimums = dict(getattr(mod, "MIN_INSTANCES", {}))
+    for rule_id, fn in rules:
         try:
             fn(model, ctx)
         except AnalysisError as e:
@@ -26,7 +28,7 @@ def run_rules(prop, model, tier="quick", seed=0):
         except Exception as e:  # a bug in the checker or an unforeseen shape: analysis broken, not a verdict
             tb = traceback.format_exc(limit=6)
             errors.append(f"{rule_id}: internal error {type(e).__name__}: {e}\n{tb}")
-    minimums = getattr(mod, "MIN_INSTANCES", {})
+    errors.extend(ctx.deferred)
     for rule_id, minimum in minimums.items():
         if any(err.startswith(rule_id + ":") for err in errors):
             continue
